@@ -502,6 +502,8 @@ Lget(char **sp, int *Lp)
     return 1;
   L = c - '0';
   while((c = *s) >= '0' && c <= '9') {
+    if (L > (2147483647 - (c - '0')) / 10)
+      return 1;                       // does not fit into int
     L = 10*L + c - '0';
     s++;
   }
